@@ -163,15 +163,15 @@ theorem dyn_retry_iff (p : Policy σ) (ed : Edits) (mw : Nat → σ → σ × W)
           split <;> rfl
         constructor
         · rintro ⟨x, hx⟩
-          obtain ⟨a, b, -, c⟩ := retryStage_cont _ _ _ _ _ _ _ _ _ _ _ hx
+          obtain ⟨a, b, -, c⟩ := retryStage_cont _ _ _ _ _ _ _ _ _ _ _ _ hx
           rw [hask] at c
           exact ⟨by simp [a, c], b, fun _ => trivial⟩
         · rintro ⟨h1, h2, -⟩
           simp only [Bool.and_eq_true, Bool.not_eq_true'] at h1
           unfold retryStage at h2 ⊢
           simp only [hask, h1.1, Bool.true_eq_false, ↓reduceIte] at h2 ⊢
-          refine ⟨_, waitStage_goes _ _ _ _ _ _ _ _ h1.2 ?_⟩
-          rw [← (waitStage_tail (W := W) ed o ra o.view (some ⟨ra, o.view, o.errKind.map (ra, ·)⟩) _ _ _).2.1]
+          refine ⟨_, waitStage_goes _ _ _ _ _ _ _ _ _ h1.2 ?_⟩
+          rw [← (waitStage_tail (W := W) R ed o ra o.view (some ⟨ra, o.view, o.errKind.map (ra, ·)⟩) _ _ _).2.1]
           exact h2
 
 /-- **dyn_past_count_stops**: when the "absolutely cannot retry" test of a pass finds a
@@ -211,6 +211,101 @@ theorem unreplayable_never_retried (v : Variant) (p : Policy σ) (ed : Edits) (m
   | inr x =>
     obtain ⟨-, -, -, -, -, -, hs⟩ := diteration_cont v p ed mw su o ra st d prev x hout
     rw [h] at hs; cases hs
+
+/-! ## what the caller finds on the response finally returned -/
+
+theorem roundTrip_some (v : Variant) (hg : v.nilRespGuard = true) (ra : Nat) (o : Outcome)
+    (ho : o ≠ .beforeErr) : ∃ r, (roundTrip v ra o).1 = some r ∧ r.attempt = ra := by
+  cases o <;> simp_all [roundTrip]
+
+/-- One pass: however it makes `do` return — a response middleware aborted, no retry option / no
+retries left, unreplayable body, the conditions said no, or the wait after hooks and interval
+function found the context done — the response handed back is the one of THIS attempt and still
+holds everything the attempt buffered, provided the clean-up comes after the wait. -/
+theorem diteration_held (v : Variant) (hw : v.wipeAfterWait = true) (hg : v.nilRespGuard = true)
+    (p : Policy σ) (ed : Edits) (mw : Nat → σ → σ × W) (su : σ → Bool) (o : Outcome) (ra : Nat) (st : σ)
+    (d : Dyn) (prev : Option Resp) (resp : Option Resp) (err : Option Err) (ho : o ≠ .beforeErr)
+    (h : (diteration v p ed mw su o ra st d prev).out = .inl (.done resp err)) :
+    (diteration v p ed mw su o ra st d prev).held = true ∧ ∃ r, resp = some r ∧ r.attempt = ra := by
+  obtain ⟨r0, hr0, hra⟩ := roundTrip_some v hg ra o ho
+  unfold diteration at h ⊢
+  simp only [ho, ↓reduceIte] at h ⊢
+  split at h
+  · simp only [Sum.inl.injEq, Final.done.injEq] at h
+    rename_i hab
+    simp only [hab, ↓reduceIte]
+    exact ⟨by first | rfl | trivial, r0, by rw [← h.1, hr0], hra⟩
+  · rename_i hab
+    split at h
+    · simp only [Sum.inl.injEq, Final.done.injEq] at h
+      rename_i hc
+      simp only [hab, hc, ↓reduceIte]
+      exact ⟨by first | rfl | trivial, r0, by rw [← h.1, hr0], hra⟩
+    · rename_i hc
+      split at h
+      · simp only [Sum.inl.injEq, Final.done.injEq] at h
+        rename_i hsu
+        simp only [hab, hc, hsu, ↓reduceIte]
+        exact ⟨by first | rfl | trivial, r0, by rw [← h.1, hr0], hra⟩
+      · rename_i hsu
+        simp only [hab, hc, hsu, ↓reduceIte]
+        unfold retryStage at h ⊢
+        simp only at h ⊢
+        split at h
+        · simp only [Sum.inl.injEq, Final.done.injEq] at h
+          rename_i hcond
+          simp only [hcond, ↓reduceIte]
+          exact ⟨by first | rfl | trivial, r0, by rw [← h.1, hr0], hra⟩
+        · rename_i hcond
+          simp only [hcond, ↓reduceIte]
+          unfold waitStage at h ⊢
+          simp only [hr0] at h ⊢
+          split at h
+          · rename_i hctx
+            simp only [Sum.inl.injEq, Final.done.injEq] at h
+            simp only [hctx, ↓reduceIte]
+            exact ⟨hw, _, h.1.symm, hra⟩
+          · simp at h
+
+/-- **returned_is_last_attempt_complete**: for every outcome script, every table of in-flight
+edits, every count (negative included) and EVERY way the loop ends after an attempt that reached
+the wire — retries used up, no retry option, the conditions say stop, a request-level response
+middleware aborts, the body cannot be replayed, the context is cancelled / its deadline passes
+during the attempt, during a condition, a hook, the interval function or DURING THE WAIT — the
+response `do` returns is the LAST attempt's (`attempt = RetryAttempt` of the last pass) and holds
+everything that attempt buffered: body, unmarshalled result / error result, dump, trace.  Nothing
+of it is wiped: the per-attempt clean-up only ever runs when another attempt follows. -/
+theorem returned_is_last_attempt_complete (v : Variant) (hw : v.wipeAfterWait = true)
+    (hg : v.nilRespGuard = true) (p : Policy σ) (ed : Edits) (mw : Nat → σ → σ × W) (su : σ → Bool)
+    (script : List Outcome) (ra : Nat) (st : σ) (d : Dyn) (prev : Option Resp)
+    (ev : List (Event W)) (resp : Option Resp) (err : Option Err) (e : End σ)
+    (h : dloop v p ed mw su script ra st d prev = (ev, .done resp err, e)) :
+    ∃ k o, script[k]? = some o ∧ iterations ev = k + 1 ∧
+      (o ≠ .beforeErr → e.held = true ∧ ∃ r, resp = some r ∧ r.attempt = ra + k) := by
+  induction script generalizing ra st d prev ev with
+  | nil => simp [dloop] at h
+  | cons o rest ih =>
+    have hs := diteration_shape v p ed mw su o ra st d prev
+    cases hout : (diteration v p ed mw su o ra st d prev).out with
+    | inl f =>
+      rw [dloop_cons_stop v p ed mw su o rest ra st d prev f hout] at h
+      simp only [Prod.mk.injEq] at h
+      obtain ⟨rfl, rfl, rfl⟩ := h
+      refine ⟨0, o, by simp, by simp [hs.2], ?_⟩
+      intro ho
+      exact diteration_held v hw hg p ed mw su o ra st d prev resp err ho hout
+    | inr x =>
+      rw [dloop_cons_cont v p ed mw su o rest ra st d prev x hout] at h
+      obtain ⟨-, -, -, -, -, hra, -⟩ := diteration_cont v p ed mw su o ra st d prev x hout
+      simp only [Prod.mk.injEq] at h
+      obtain ⟨hev, hfin⟩ := h
+      obtain ⟨k, o', hk, hit, hheld⟩ := ih _ _ _ _ _ (Prod.ext rfl hfin)
+      refine ⟨k + 1, o', by simpa using hk, ?_, ?_⟩
+      · rw [← hev, iterations_append, hs.2, hit]; omega
+      · intro ho
+        obtain ⟨a, r, b, c⟩ := hheld ho
+        rw [hra] at c
+        exact ⟨a, r, b, by omega⟩
 
 /-! ## the context, at any point of a pass, for any count -/
 
@@ -405,6 +500,27 @@ example : iterations (dsend { R with loopRefuse := false } (⟨false, 0, [], [],
     { Edits.nop with after := fun _ _ => ⟨some 2, none, false⟩ } exMw (fun _ => true)
     [.transportErr, .transportErr, .transportErr, .transportErr] 0 () ⟨false, 0, .dflt, false⟩).1 = 1 := by
   decide
+
+/-- seed C10-r4-1 — the clean-up BEFORE the wait: a 503 is to be retried, the caller cancels while
+the loop waits; the 503 comes back with body, error result, dump and trace wiped.  With the
+code's ordering it comes back complete (`returned_is_last_attempt_complete`). -/
+theorem wipe_before_wait_returns_emptied_response :
+    (dloop { R with wipeAfterWait := false } (exP 3) Edits.nop exMw (fun _ => false)
+      [.status 503, .lateCancel 503, .status 200] 0 () (dynOf (exP 3)) none).2.2.held = false ∧
+    (dloop R (exP 3) Edits.nop exMw (fun _ => false)
+      [.status 503, .lateCancel 503, .status 200] 0 () (dynOf (exP 3)) none).2.2.held = true ∧
+    (dloop R (exP 3) Edits.nop exMw (fun _ => false)
+      [.status 503, .lateCancel 503, .status 200] 0 () (dynOf (exP 3)) none).2.1.returned =
+        some (some (1, .status 503), some (1, .waitCtx)) := by decide
+/-- … the same when the interval function (or a hook) cancels, and when retries are simply used up -/
+example : (dloop { R with wipeAfterWait := false } (exP (-1)) { Edits.nop with ivl := fun a _ => ⟨none, none, a == 2⟩ }
+    exMw (fun _ => false) (List.replicate 9 (.status 503)) 0 () (dynOf (exP (-1))) none).2.2.held = false ∧
+    (dloop { R with wipeAfterWait := false } (exP 2) Edits.nop
+    exMw (fun _ => false) (List.replicate 9 (.status 503)) 0 () (dynOf (exP 2)) none).2.2.held = true := by decide
+/-- the one return that hands back a wiped response in the code as it is: a request middleware
+fails on a retry — `resp` is still the previous attempt's, after its clean-up (faithful corner) -/
+example : (dloop R (exP 3) Edits.nop exMw (fun _ => false)
+    [.status 503, .beforeErr] 0 () (dynOf (exP 3)) none).2.2.held = false := by decide
 
 end examples
 
